@@ -161,9 +161,7 @@ func TestC17Race(t *testing.T) {
 		iters = 4000
 	}
 	var n int64
-	for _, c := range poolConcs(env.Deep()) {
-		n += c.FreeRunConc(rep, env, nil, iters)
-	}
+	n = schedx.FreeRunAll(rep, env, poolConcs(env.Deep()), false, iters)
 	rep.Add(n, 0, 0, 0)
 	rep.OutcomeN("free-running race-detector pass [iterations]", n)
 }
